@@ -164,7 +164,7 @@ fn check_mono_instances(
 // shapes the type-directed generator does not build (its generic types never refer to
 // themselves): hand-written, with the output fixed by hand.
 
-const DIRECTED: &[(&str, &str, &str)] = &[
+pub const DIRECTED: &[(&str, &str, &str)] = &[
     ("tree-through-vec", r#"struct Tree[T] { value: T, children: Vec[Tree[T]] }
 fn leaf[T](v: T) -> Tree[T] { Tree { value: v, children: vec_new() } }
 fn count[T](t: Tree[T]) -> int32 {
